@@ -160,19 +160,26 @@ class TCPServer:
             except AttributeError:
                 return 0  # A SSL transport that has already closed
 
-        while transport is not None:
-            # What is still to be written is written first, to a client
-            # that takes it. One that has not taken any of it for as
-            # long as an idle connection is kept is not waited for.
-            remaining = buffered()
-            try:
-                await asyncio.wait_for(self.writer.wait_closed(), self.config.keep_alive_timeout)
-            except asyncio.TimeoutError:
-                if buffered() >= remaining:
-                    transport.abort()
-            else:
-                break
-        await self.writer.wait_closed()
+        # (Shielded, a wait that times out would otherwise cancel what
+        # wait_closed itself waits for, and with it every later wait)
+        closed = asyncio.ensure_future(self.writer.wait_closed())
+        try:
+            while transport is not None:
+                # What is still to be written is written first, to a client
+                # that takes it. One that has not taken any of it for as
+                # long as an idle connection is kept is not waited for.
+                remaining = buffered()
+                try:
+                    await asyncio.wait_for(asyncio.shield(closed), self.config.keep_alive_timeout)
+                except asyncio.TimeoutError:
+                    if buffered() >= remaining:
+                        transport.abort()
+                else:
+                    break
+            await closed
+        finally:
+            if not closed.done():
+                closed.cancel()
 
     async def _initiate_server_close(self) -> None:
         await self.protocol.handle(Closed())
